@@ -162,6 +162,11 @@ def explicit_branch_lam(prog, run, fi, pf, f, cfg, label, oval, p_freq, p_order,
         node = ap["site"] if ap["site"] is not None else ap["node"]
         role = f"{kinds.get(acc.table, acc.table)} value"
         okc = col_ok(acc.col)
+        if not okc:
+            # a column read through a local array this model could not evaluate (orders = [order] * n ...): not recognised, not wrong
+            known_names = set(astq.params_of(fi.node)[0] + astq.params_of(fi.node)[1]) | {lv}
+            if {x.id for x in ast.walk(acc.col) if isinstance(x, ast.Name)} - known_names:
+                okc = None
         run.ob("R-same-pole", fi.qual, f"{role}: column is the requested order", okc, f"{acc!r}; expected column {colname}", astq.src(acc.col, 40), file=f, node=node, config=cfg)
         okr, why = (False, "no row")
         if acc.row is not None:
